@@ -13,7 +13,7 @@ from rv.gen import secops
 ID = "C15"
 LEVEL = "exploration"
 RULE = ("cases = operation histories over {append(n), insert(0,n), del first, del last} with "
-        "n in {A,a,B,'',1}, exhaustively up to length 3 (quick) / 4 (thorough), x case "
+        "n in {A,a,B,'',1,A:1}, exhaustively up to length 3 (quick) / 4 (thorough), x case "
         "normalisation {on, off}; each distinct reached state is probed with every present "
         "session mnemonic, case variants, absent keys, all ints in [-n-1, n] and slices through "
         "__contains__/__getitem__/__getattr__/get/__delitem__/__setitem__/__setattr__. "
@@ -22,14 +22,14 @@ ASSUMPTIONS = [
     "the reference reads each item's session mnemonic through list.__getitem__ (C13 decides whether those names are right)",
     "probe keys that are attributes of the list type itself (append, index, ...) are outside the domain of attribute access",
 ]
-EXHAUSTIVE = {"quick": "all operation histories up to length 3 over the 12-operation alphabet",
-              "thorough": "all operation histories up to length 4 over the 12-operation alphabet"}
+EXHAUSTIVE = {"quick": "all operation histories up to length 3 over the 14-operation alphabet",
+              "thorough": "all operation histories up to length 4 over the 14-operation alphabet"}
 REQUIRED = ["probes_contains", "probes_getitem", "probes_getattr", "probes_get", "probes_get_add",
             "probes_delitem", "probes_setvalue", "probes_int", "probes_slice",
             "states_with_duplicates", "states_norm_on"]
 SOFT_DEADLINE = {"quick": 90, "thorough": 1200}
 
-NAMES = ["A", "a", "B", "", "1"]
+NAMES = ["A", "a", "B", "", "1", "A:1"]      # "A:1" collides with a generated suffix: the only way to reach duplicate session names
 OPS = [("append", n) for n in NAMES] + [("insert", "first", n) for n in NAMES] + \
       [("del_idx", "first"), ("del_idx", "last")]
 EXTRA_KEYS = ["A", "a", "B", "b", "", "1", "UNKNOWN", "unknown", "A:1", "a:1", "A:2", "Z", "UNKNOWN:1"]
